@@ -55,6 +55,7 @@ var cores = []string{
 	"spin-cfor-empty", "spin-true-empty", "spin-forin-empty", "spin-recursion-quiet", "spin-forin-big", "spin-anon-expr", "block-recv-after-first",
 	"block-range-body-recv", "block-range-shared", "spin-fib", "spin-mutual",
 	"lib-spin-5", "lib-spin-v", "lib-block-5", "lib-block-v", "lib-spin-1",
+	"block-fanin-send", "block-fanout-recv",
 }
 
 // prelude is run once, under its own never-cancelled context, on the environment the cancelled run
@@ -126,6 +127,11 @@ func renderCore(core string, u string) string {
 		return "for { func(a, b) { return a + b }(1, 2) }"
 	case "block-recv-after-first":
 		return "c" + u + " = make(chan int64, 1)\nc" + u + " <- 1\nfor v" + u + " in c" + u + " { tick() }"
+	case "block-fanin-send":
+		// several senders compete for the one free slot of a buffered channel while the receiver keeps draining it
+		return "c" + u + " = make(chan int64, 1)\ngo func() { for { c" + u + " <- 1 } }()\ngo func() { for { c" + u + " <- 2 } }()\ngo func(a, b, c, d, e) { for { a <- 3 } }(c" + u + ", 2, 3, 4, 5)\nfor { <-c" + u + "; tick() }"
+	case "block-fanout-recv":
+		return "c" + u + " = make(chan int64, 2)\ngo func() { for { <-c" + u + " } }()\ngo func() { for v" + u + " in c" + u + " { } }()\ngo func() { for { x" + u + ", ok" + u + " = <-c" + u + " } }()\nfor { c" + u + " <- 1; tick() }"
 	case "lib-spin-5":
 		return "libspin5(1, 2, 3, 4, 5)"
 	case "lib-spin-v":
